@@ -18,6 +18,7 @@ import (
 	"github.com/gcash/bchutil/base58"
 
 	al "verif/harness/cmd/c01/addrlib"
+	"verif/harness/cmd/c01/addrlib/envrun"
 	"verif/harness/internal/vh"
 )
 
@@ -314,10 +315,14 @@ func main() {
 	cases = vh.NewCases(cfg, "Run.Run_C06", 150)
 	rng := vh.NewRNG(cfg.Seed)
 	if cfg.Replay != "" {
-		replayFile(cfg.Replay)
+		if !envrun.Replay(cfg, rep) {
+			replayFile(cfg.Replay)
+		}
 		vh.Must(rep.Write(cfg))
 		return
 	}
+	// environment monitors (round 3): Base58 digit table, network parameters, WIF strings of every net; plain children
+	env := envrun.Start(cfg, rep)
 	if bchec.PrivKeyBytesLen != 32 {
 		rep.Violate("C06:dependency", "bchec.PrivKeyBytesLen is not 32 (the model's priv_len)", map[string]interface{}{"value": bchec.PrivKeyBytesLen})
 	}
@@ -625,6 +630,7 @@ func main() {
 		rep.Violate("C06:panic", "NewWIF(priv, nil, _) does not fail cleanly", map[string]interface{}{"op": "NewWIF nil net", "panic": msg})
 	}
 
+	env.Finish()
 	rep.Cases = cases.Len()
 	rep.Extra["duplicate_cases_dropped"] = cases.Dups
 	_, err := cases.Flush()
